@@ -1,5 +1,253 @@
 import ZoektModel.Basic.Proto
+import ZoektModel.C24.Spec
+import ZoektModel.C24.ApiModel
 namespace ZoektModel.C24
-/-- stub: no model driver for C24 yet -/
-def main : IO Unit := ZoektModel.Proto.runLines (fun _ => ZoektModel.Proto.badCase "no model driver for C24")
+open ZoektModel ZoektModel.Proto
+
+/-! generic term syntax shared with harness/cmd/c24: `name(arg,…)`, `[arg,…]`, atoms (no spaces anywhere) -/
+
+inductive T where
+  | atom (s : String)
+  | node (name : String) (args : List T)
+  deriving Repr, Inhabited
+
+def isDelim (c : Char) : Bool := c == '(' || c == ')' || c == ',' || c == '[' || c == ']'
+
+mutual
+partial def parseTerm (cs : List Char) : Option (T × List Char) :=
+  let (word, rest) := cs.span (fun c => !isDelim c)
+  match rest with
+  | '(' :: rest' =>
+    match parseArgs rest' ')' [] with
+    | some (args, rest'') => some (.node (String.ofList word) args, rest'')
+    | none => none
+  | '[' :: rest' =>
+    if word.isEmpty then
+      match parseArgs rest' ']' [] with
+      | some (args, rest'') => some (.node "" args, rest'')
+      | none => none
+    else none
+  | _ => if word.isEmpty then none else some (.atom (String.ofList word), rest)
+partial def parseArgs (cs : List Char) (close : Char) (acc : List T) : Option (List T × List Char) :=
+  match cs with
+  | c :: rest =>
+    if c == close then some (acc.reverse, rest) else
+    match parseTerm cs with
+    | some (t, ',' :: rest') => parseArgs rest' close (t :: acc)
+    | some (t, c' :: rest') => if c' == close then some ((t :: acc).reverse, rest') else none
+    | _ => none
+  | [] => none
+end
+
+def parseT (s : String) : Option T :=
+  match parseTerm s.toList with
+  | some (t, []) => some t
+  | _ => none
+
+def tBool : T → Option Bool
+  | .atom "1" => some true
+  | .atom "0" => some false
+  | _ => none
+
+def tNat : T → Option Nat
+  | .atom s => s.toNat?
+  | _ => none
+
+def tStr : T → Option String
+  | .atom s => some s
+  | _ => none
+
+def tPairs {α} (f : T → Option α) : List T → Option (List (String × α))
+  | [] => some []
+  | .node "p" [a, b] :: rest => do pure ((← tStr a, ← f b) :: (← tPairs f rest))
+  | _ => none
+
+mutual
+partial def tToQ : T → Option Q
+  | .atom "nil" => some .nilQ
+  | .node "case" [a] => do pure (.caseQ (← tStr a))
+  | .node "raw" [a] => do pure (.rawConfig (← tNat a))
+  | .node "re" [a, b, c, d] => do pure (.regexp (← tStr a) (← tBool b) (← tBool c) (← tBool d))
+  | .node "sym" [a] => do pure (.symbol (← tToQ a))
+  | .node "lang" [a] => do pure (.language (← tStr a))
+  | .node "const" [a] => do pure (.const (← tBool a))
+  | .node "repo" [a] => do pure (.repo (← tStr a))
+  | .node "reporx" [a] => do pure (.repoRegexp (← tStr a))
+  | .node "brs" [.node "" l] => do pure (.branchesRepos (← tPairs tStr l))
+  | .node "ids" [a] => do pure (.repoIDs (← tStr a))
+  | .node "rset" [.node "" l] => do pure (.repoSet (← tPairs tBool l))
+  | .node "fset" [.node "" l] => do pure (.fileNameSet (← l.mapM tStr))
+  | .node "type" [a, b] => do pure (.type_ (← tToQ a) (← tNat b))
+  | .node "sub" [a, b, c, d] => do pure (.substring (← tStr a) (← tBool b) (← tBool c) (← tBool d))
+  | .node "and" [.node "" l] => do pure (.and_ (← l.mapM tToQ))
+  | .node "or" [.node "" l] => do pure (.or_ (← l.mapM tToQ))
+  | .node "not" [a] => do pure (.not_ (← tToQ a))
+  | .node "branch" [a, b] => do pure (.branch (← tStr a) (← tBool b))
+  | .node "boost" [a, b] => do pure (.boost (← tToQ a) (← tStr b))
+  | .node "meta" [a, b] => do pure (.metaQ (← tStr a) (← tStr b))
+  | _ => none
+end
+
+mutual
+partial def tToPQ : T → Option PQ
+  | .atom "absent" => some .absent
+  | .atom "unset" => some .unset
+  | .node "raw" [.node "" l] => do pure (.rawConfig (← l.mapM tNat))
+  | .node "re" [a, b, c, d] => do pure (.regexp (← tStr a) (← tBool b) (← tBool c) (← tBool d))
+  | .node "sym" [a] => do pure (.symbol (← tToPQ a))
+  | .node "lang" [a] => do pure (.language (← tStr a))
+  | .node "const" [a] => do pure (.const (← tBool a))
+  | .node "repo" [a] => do pure (.repo (← tStr a))
+  | .node "reporx" [a] => do pure (.repoRegexp (← tStr a))
+  | .node "brs" [.node "" l] => do pure (.branchesRepos (← tPairs tStr l))
+  | .node "ids" [a] => do pure (.repoIds (← tStr a))
+  | .node "rset" [.node "" l] => do pure (.repoSet (← tPairs tBool l))
+  | .node "fset" [.node "" l] => do pure (.fileNameSet (← l.mapM tStr))
+  | .node "type" [a, b] => do pure (.type_ (← tToPQ a) (← tNat b))
+  | .node "sub" [a, b, c, d] => do pure (.substring (← tStr a) (← tBool b) (← tBool c) (← tBool d))
+  | .node "and" [.node "" l] => do pure (.and_ (← l.mapM tToPQ))
+  | .node "or" [.node "" l] => do pure (.or_ (← l.mapM tToPQ))
+  | .node "not" [a] => do pure (.not_ (← tToPQ a))
+  | .node "branch" [a, b] => do pure (.branch (← tStr a) (← tBool b))
+  | .node "boost" [a, b] => do pure (.boost (← tToPQ a) (← tStr b))
+  | .node "meta" [a, b] => do pure (.metaQ (← tStr a) (← tStr b))
+  | _ => none
+end
+
+def bl (l : List String) : String := "[" ++ ",".intercalate l ++ "]"
+def sortS (l : List String) : List String := l.mergeSort fun a b => !(b < a)
+def b01 (b : Bool) : String := if b then "1" else "0"
+
+/-- sets and maps are rendered sorted (their Go iteration order is arbitrary) -/
+partial def showQ : Q → String
+  | .nilQ => "nil"
+  | .caseQ f => s!"case({f})"
+  | .rawConfig n => s!"raw({n})"
+  | .regexp r a b c => s!"re({r},{b01 a},{b01 b},{b01 c})"
+  | .symbol e => s!"sym({showQ e})"
+  | .language l => s!"lang({l})"
+  | .const v => s!"const({b01 v})"
+  | .repo r => s!"repo({r})"
+  | .repoRegexp r => s!"reporx({r})"
+  | .branchesRepos l => s!"brs({bl (l.map fun p => s!"p({p.1},{p.2})")})"
+  | .repoIDs b => s!"ids({b})"
+  | .repoSet s => s!"rset({bl (sortS (s.map fun p => s!"p({p.1},{b01 p.2})"))})"
+  | .fileNameSet s => s!"fset({bl (sortS s)})"
+  | .type_ c t => s!"type({showQ c},{t})"
+  | .substring p a b c => s!"sub({p},{b01 a},{b01 b},{b01 c})"
+  | .and_ cs => s!"and({bl (cs.map showQ)})"
+  | .or_ cs => s!"or({bl (cs.map showQ)})"
+  | .not_ c => s!"not({showQ c})"
+  | .branch p e => s!"branch({p},{b01 e})"
+  | .boost c b => s!"boost({showQ c},{b})"
+  | .metaQ f r => s!"meta({f},{r})"
+
+partial def showPQ : PQ → String
+  | .absent => "absent"
+  | .unset => "unset"
+  | .rawConfig l => s!"raw({bl (l.map toString)})"
+  | .regexp r a b c => s!"re({r},{b01 a},{b01 b},{b01 c})"
+  | .symbol e => s!"sym({showPQ e})"
+  | .language l => s!"lang({l})"
+  | .const v => s!"const({b01 v})"
+  | .repo r => s!"repo({r})"
+  | .repoRegexp r => s!"reporx({r})"
+  | .branchesRepos l => s!"brs({bl (l.map fun p => s!"p({p.1},{p.2})")})"
+  | .repoIds b => s!"ids({b})"
+  | .repoSet s => s!"rset({bl (sortS (s.map fun p => s!"p({p.1},{b01 p.2})"))})"
+  | .fileNameSet s => s!"fset({bl (sortS s)})"
+  | .type_ c t => s!"type({showPQ c},{t})"
+  | .substring p a b c => s!"sub({p},{b01 a},{b01 b},{b01 c})"
+  | .and_ cs => s!"and({bl (cs.map showPQ)})"
+  | .or_ cs => s!"or({bl (cs.map showPQ)})"
+  | .not_ c => s!"not({showPQ c})"
+  | .branch p e => s!"branch({p},{b01 e})"
+  | .boost c b => s!"boost({showPQ c},{b})"
+  | .metaQ k v => s!"meta({k},{v})"
+
+/-- table of the external parsers' behaviour on the strings of this case:
+    `[re(in,out|E),cre(in,0|1),bm(in,out|E)]`; a missing entry shows up as the token `MISSING` -/
+def envOfTable : T → Option Env
+  | .node "" l =>
+    let find (kind : String) (key : String) : Option String :=
+      l.findSome? fun
+        | .node k [.atom a, .atom b] => if k == kind && a == key then some b else none
+        | _ => none
+    some {
+      reParse := fun s => match find "re" s with | some "E" => none | some o => some o | none => some "MISSING"
+      creOk := fun s => match find "cre" s with | some "1" => true | some _ => false | none => true
+      bmParse := fun s => match find "bm" s with | some "E" => none | some o => some o | none => some "MISSING" }
+  | _ => none
+
+def showOut {α} (f : α → String) : Outcome α → String
+  | .ok a => f a
+  | .err _ => "err"
+  | .panic _ => "panic"
+  | .diverge => "diverge"
+
+def handle (line : String) : String :=
+  let (inp, impl) := splitCase line
+  match fields inp with
+  | ["toproto", qs] =>
+    match parseT qs >>= tToQ with
+    | some q => answer (showOut showPQ (toProto q))
+    | none => badCase "query term"
+  | ["fromproto", ps, ts] =>
+    match parseT ps >>= tToPQ, parseT ts >>= envOfTable with
+    | some p, some env => answer (showOut showQ (fromProto env p))
+    | _, _ => badCase "proto term / table"
+  | ["rt", qs, ts] =>
+    -- impl: `<proto term>|<query term that came back>`
+    match parseT qs >>= tToQ, parseT ts >>= envOfTable with
+    | some q, some env =>
+      let back : Outcome Q := do let p ← toProto q; fromProto env p
+      let model := showOut showPQ (toProto q) ++ "|" ++ showOut showQ back
+      match impl.splitOn "|" with
+      | [_, iq] =>
+        match parseT iq >>= tToQ with
+        | some q' => if checkRoundTripP q q' || showQ q == showQ q' then answer model else specFail model "roundtrip:query"
+        | none => specFail model ("roundtrip:query:" ++ iq)
+      | _ => specFail model ("roundtrip:query:" ++ impl)
+    | _, _ => badCase "query term / table"
+  | ["handler", which, ps, os, ts] =>
+    match parseT ps >>= tToPQ, bool? os, parseT ts >>= envOfTable with
+    | some p, some optsSet, some env =>
+      let rpc : Rpc := if which == "list" then .list else if which == "stream" then .stream else .search
+      let model := match handler env rpc p optsSet with
+        | .ok .invalidArgument => "status:InvalidArgument"
+        | .ok (.callsStreamer q o) => "ok " ++ showQ q ++ " opts=" ++
+            (match o with | .fromWire => "wire" | .zero => "zero" | .nilOpts => "nil")
+        | .panic _ => "panic"
+        | _ => "?"
+      if checkHandlerP ((impl.splitOn " ").headD "") then answer model else specFail model ("handler-not-total:" ++ (impl.splitOn " ").headD "")
+    | _, _, _ => badCase "proto term / table"
+  | ["flush", a] =>
+    match a.toNat? with
+    | some fr =>
+      let model := s!"{flushToProto fr} {flushFromProto (flushToProto fr)}"
+      answer model
+    | none => badCase "fields"
+  | ["flushfrom", a] =>
+    match a.toNat? with
+    | some p => answer s!"{flushFromProto p}"
+    | none => badCase "fields"
+  | ["listfield", a] =>
+    match a.toInt? with
+    | some f => answer s!"{listFieldToProto f} {listFieldFromProto (listFieldToProto f)}"
+    | none => badCase "fields"
+  | ["listfieldfrom", a] =>
+    match a.toNat? with
+    | some p => answer s!"{listFieldFromProto p}"
+    | none => badCase "fields"
+  | ["duration", a] =>
+    match a.toInt? with
+    | some d => answer s!"{(durationSplit d).1} {(durationSplit d).2} {durationJoin (durationSplit d)}"
+    | none => badCase "fields"
+  | ["rank", a] =>
+    match a.toNat? with
+    | some x => answer s!"{u16ViaU32 x}"
+    | none => badCase "fields"
+  | _ => badCase "op"
+
+def main : IO Unit := runLines handle
 end ZoektModel.C24
